@@ -268,6 +268,10 @@ func (b *builder) buildEnvs() error {
 
 // buildLogDir builds the log directory for the DAG.
 func (b *builder) buildLogDir() (err error) {
+	if b.opts.noEval {
+		b.dag.LogDir = b.def.LogDir
+		return nil
+	}
 	logDir, err := substituteCommands(os.ExpandEnv(b.def.LogDir))
 	if err != nil {
 		return err
